@@ -25,6 +25,14 @@ func init() {
 }
 
 func (b Enforce) Apply(opt *Option, profile string) (string, error) {
+	// Edit each block header on its own, from its own flags
+	if regBlockHeader.FindString(profile) != profile {
+		return regBlockHeader.ReplaceAllStringFunc(profile, func(header string) string {
+			header, _ = b.Apply(opt, header)
+			return header
+		}), nil
+	}
+
 	matches := regFlags.FindStringSubmatch(profile)
 	if len(matches) == 0 {
 		return profile, nil
